@@ -688,6 +688,89 @@ impl<'a, 'ast> Visit<'ast> for Cx<'a> {
         self.if_stack.pop();
     }
 
+    fn visit_expr_match(&mut self, m: &'ast syn::ExprMatch) {
+        // N15: a match whose patterns are string literals (Verus gives such patterns no meaning) becomes
+        // the equivalent if / else-if chain over vx_str_eq, arms in source order
+        fn lits(p: &syn::Pat, out: &mut Vec<String>) -> bool {
+            match p {
+                syn::Pat::Lit(l) => match &l.lit {
+                    syn::Lit::Str(s) => { out.push(s.token().to_string()); true }
+                    _ => false,
+                },
+                syn::Pat::Or(o) => o.cases.iter().all(|c| lits(c, out)),
+                syn::Pat::Paren(pp) => lits(&pp.pat, out),
+                _ => false,
+            }
+        }
+        let n = m.arms.len();
+        let mut conds: Vec<Option<Vec<String>>> = vec![];
+        let mut ok = n >= 2;
+        for (i, a) in m.arms.iter().enumerate() {
+            if a.guard.is_some() { ok = false; break; }
+            let mut v = vec![];
+            if lits(&a.pat, &mut v) {
+                conds.push(Some(v));
+            } else if i == n - 1 && matches!(a.pat, syn::Pat::Wild(_)) {
+                conds.push(None);
+            } else {
+                ok = false;
+                break;
+            }
+        }
+        if ok && conds.iter().any(|c| c.is_some()) && conds.last().map(|c| c.is_none()).unwrap_or(false) {
+            self.seq += 1;
+            let var = format!("__m{}", self.seq);
+            let whole = m.span().byte_range();
+            let scrut = m.expr.span().byte_range();
+            let open = m.brace_token.span.open().byte_range();
+            let before = crate::one_line_pub(&self.src[whole.start..open.end]);
+            // a scrutinee without calls (`name`, `&*buf`) is repeated in every test; otherwise it is bound once
+            fn simple(e: &syn::Expr) -> bool {
+                match e {
+                    syn::Expr::Path(_) => true,
+                    syn::Expr::Reference(r) => simple(&r.expr),
+                    syn::Expr::Unary(u) => matches!(u.op, syn::UnOp::Deref(_)) && simple(&u.expr),
+                    syn::Expr::Paren(p) => simple(&p.expr),
+                    syn::Expr::Field(f) => simple(&f.base),
+                    _ => false,
+                }
+            }
+            let is_simple = simple(&m.expr);
+            let var = if is_simple { format!("({})", &self.src[scrut.clone()]) } else { var };
+            if is_simple {
+                self.replace(whole.start..open.end, "");
+            } else {
+                self.replace(whole.start..scrut.start, format!("{{ let {} = ", var));
+                self.replace(scrut.end..open.end, "; ");
+            }
+            for (i, a) in m.arms.iter().enumerate() {
+                let ar = a.span().byte_range();
+                let br = a.body.span().byte_range();
+                let head = match &conds[i] {
+                    Some(ls) => {
+                        let c: Vec<String> = ls.iter().map(|l| format!("vx_str_eq({}, {})", var, l)).collect();
+                        format!("{}if {} {{ ", if i == 0 { "" } else { "else " }, c.join(" || "))
+                    }
+                    None => "else { ".to_string(),
+                };
+                self.replace(ar.start..br.start, head);
+                let end = match &a.comma { Some(c) => c.span().byte_range().end, None => br.end };
+                self.replace(br.end..end, " }");
+                self.visit_expr(&a.body);
+            }
+            self.note("N15", whole.start, &before, "if / else-if chain over vx_str_eq (string literal patterns)");
+            if is_simple {
+                // the closing brace of the match goes away with its opening
+                let close = m.brace_token.span.close().byte_range();
+                self.replace(close, "");
+            } else {
+                self.visit_expr(&m.expr);
+            }
+            return;
+        }
+        syn::visit::visit_expr_match(self, m);
+    }
+
     fn visit_expr_if(&mut self, i: &'ast syn::ExprIf) {
         // structural hint anchors: if_then K / if_then <loop>.K -> start of the then-block of the K-th `if`
         let ord = self.if_ord;
